@@ -64,8 +64,8 @@ class C08(Property):
         "distinct by (grid, units, mask mode, payload forms, event pattern)"
     )
     assumptions = ("oldest retained entry is read from the public attribute Output.data (retention itself is C09's subject)",)
-    cases = {"quick": 12000, "thorough": 200000}
-    min_nontrivial = {"quick": 6000, "thorough": 80000}
+    cases = {"quick": 12000, "thorough": 1000000}
+    min_nontrivial = {"quick": 6000, "thorough": 300000}
 
     def gen(self, rnd, i, tier):
         r = rnd.random()
